@@ -270,7 +270,16 @@ def main(argv=None):
             validators = [{'name': 'validate_models', 'vectors': 0, 'differences': -1, 'error': repr(ex_)}]
         for v in validators:
             validated += v.get('vectors', 0)
-            if v.get('differences', 0) != 0:
+            if v.get('violation'):
+                # a concrete run of the REAL code (real libraries, no model) that breaks the property: reported as a
+                # violation found by the stub validator (concrete testing), not by the solver
+                blob = {'property': prop, 'module': modname, 'condition': 'validate_models:' + str(v.get('name')),
+                        'args': v.get('violation'), 'found_by': 'concrete validator on the real code (not a solver verdict)'}
+                hh = hashlib.sha256(json.dumps(blob, sort_keys=True, default=repr).encode()).hexdigest()[:10]
+                path = os.path.join(repl_dir, '%s-%s.json' % (prop, hh))
+                json.dump(blob, open(path, 'w'), indent=1, default=repr)
+                violations.append((path, blob['condition'], v.get('violation'), v.get('error')))
+            elif v.get('differences', 0) != 0:
                 inconclusive.append('model validator %s: %s differences %s' % (v.get('name'), v.get('differences'),
                                                                               v.get('error', '')))
 
